@@ -121,6 +121,17 @@ func (e *env) attachGen(rng *rand.Rand, p *program) {
 						nd.Value = new(big.Int).Lsh(big.NewInt(1), 100) // more than the caller holds: the call never starts
 					}
 				}
+				// CALLCODE with a value (round 4): allowed in a static context too (opCallCode has no write-protection test);
+				// the balance of the EXECUTING account is consulted, nothing moves
+				if nd.Kind == evmx.KCallCode && (static || rng.Intn(2) == 0) {
+					nd.Value = big.NewInt(int64(1 + rng.Intn(1000)))
+					if rng.Intn(4) == 0 {
+						nd.Value = new(big.Int).Lsh(big.NewInt(1), 100)
+					}
+					if static {
+						e.cnt("value-callcode-in-static-context")
+					}
+				}
 				cctx := nd.To
 				if nd.Kind == evmx.KDelegate || nd.Kind == evmx.KCallCode {
 					cctx = ctx
